@@ -117,6 +117,8 @@ def rules(ctx: Ctx) -> None:
     pd_defs = [(k, n) for k, n in prog.local_defs(ser, "parents_dict")] if prog.local_defs(ser, "parents_dict") else []
     dict_comps = [n for n in prog.walk_fn(ser) if isinstance(n, ast.DictComp)]
     compound_nodes = [x for x in node_comps if x[2]]
+    ctx.ob("R18.1", "nodes:compound:present", bool(compound_nodes) or not any(a_ == "compound" for a_ in ser.params()), ser.loc(),
+           "the compound export lists every node with its parent reference in one pass over the graph's nodes", trivial=bool(compound_nodes))
     if compound_nodes:
         c, d, _ = compound_nodes[0]
         where = loc(ser.mod, c)
@@ -130,30 +132,36 @@ def rules(ctx: Ctx) -> None:
         elif get_shape:
             dname, kexpr, field_ = pref.value.func.value.id, u(pref.value.args[0]), prog.try_fold(pref.slice, ser.mod, ser)
         else:
-            raise AnalysisError(f"R18.1: parent reference `{u(pref)}` has an unknown shape")
+            ctx.ob("R18.1", "parents:reference-is-the-dictionary-entry", False, where,
+                   f"the parent reference `{u(pref)[:70]}` is not a look-up of the compound-parent dictionary: a parent named this way need not be among the emitted parents "
+                   f"(owners that compare equal share one entry but may print differently)")
+            dname = None
         dc = next((x for x in dict_comps if any(isinstance(t, ast.Name) and t.id == dname for st in [prog.enclosing_stmt(x)] if isinstance(st, ast.Assign) for t in st.targets)), None)
+        if dname is None:
+            dc = False
         if dc is None:
             raise AnalysisError(f"R18.1: dictionary `{dname}` of compound parents is not a dict comprehension")
-        g = dc.generators[0]
-        nodevar = u(c.generators[0].target)
-        ok_dict = len(dc.generators) == 1 and u(g.iter) == f"{gparam}.nodes" and not g.ifs
-        ctx.ob("R18.1", "parents:built-from-all-nodes-no-filter", ok_dict, loc(ser.mod, dc),
-               f"`for {u(g.target)} in {u(g.iter)}" + (f" if {u(g.ifs[0])}" if g.ifs else "") + "`: every node contributes its parent entry (a filter leaves dangling parent references)")
-        same_key = u(dc.key).replace(u(g.target), "§") == kexpr.replace(nodevar, "§")
-        ctx.ob("R18.1", "parents:reference-uses-the-dictionary-key", same_key, where,
-               f"the parent reference looks up `{kexpr}`, the dictionary is keyed by `{u(dc.key)}`: same projection of the node")
-        # the reference must be a plain look-up (no fallback / default)
-        plain = not any(isinstance(x, ast.Call) and isinstance(x.func, ast.Attribute) and x.func.attr == "get" for x in ast.walk(pref)) and not isinstance(prog.parent(pref), (ast.IfExp, ast.BoolOp))
-        ctx.ob("R18.1", "parents:reference-has-no-fallback", plain, where, "the parent reference is a plain look-up of the dictionary entry (no placeholder that is never emitted)")
-        # emitted parent nodes: id = entry[field], all entries
-        emitted = [(pc, pdct) for pc, pdct in parent_comps if dname in u(pc.generators[0].iter)]
-        ctx.ob("R18.1", "parents:emitted", len(emitted) == 1, where, "the compound parents are emitted as nodes")
-        for pc, pdct in emitted:
-            pg = pc.generators[0]
-            idv = pdct["id"]
-            same_field = isinstance(idv, ast.Subscript) and prog.try_fold(idv.slice, ser.mod, ser) == field_
-            ctx.ob("R18.1", "parents:id-is-the-referenced-field", same_field and not pg.ifs, loc(ser.mod, pc),
-                   f"emitted parent id `{u(idv)}` and the nodes' parent reference are the same field {field_!r} of the same entry, for every entry")
+        if dc is not False:
+            g = dc.generators[0]
+            nodevar = u(c.generators[0].target)
+            ok_dict = len(dc.generators) == 1 and u(g.iter) == f"{gparam}.nodes" and not g.ifs
+            ctx.ob("R18.1", "parents:built-from-all-nodes-no-filter", ok_dict, loc(ser.mod, dc),
+                   f"`for {u(g.target)} in {u(g.iter)}" + (f" if {u(g.ifs[0])}" if g.ifs else "") + "`: every node contributes its parent entry (a filter leaves dangling parent references)")
+            same_key = u(dc.key).replace(u(g.target), "§") == kexpr.replace(nodevar, "§")
+            ctx.ob("R18.1", "parents:reference-uses-the-dictionary-key", same_key, where,
+                   f"the parent reference looks up `{kexpr}`, the dictionary is keyed by `{u(dc.key)}`: same projection of the node")
+            # the reference must be a plain look-up (no fallback / default)
+            plain = not any(isinstance(x, ast.Call) and isinstance(x.func, ast.Attribute) and x.func.attr == "get" for x in ast.walk(pref)) and not isinstance(prog.parent(pref), (ast.IfExp, ast.BoolOp))
+            ctx.ob("R18.1", "parents:reference-has-no-fallback", plain, where, "the parent reference is a plain look-up of the dictionary entry (no placeholder that is never emitted)")
+            # emitted parent nodes: id = entry[field], all entries
+            emitted = [(pc, pdct) for pc, pdct in parent_comps if dname in u(pc.generators[0].iter)]
+            ctx.ob("R18.1", "parents:emitted", len(emitted) == 1, where, "the compound parents are emitted as nodes")
+            for pc, pdct in emitted:
+                pg = pc.generators[0]
+                idv = pdct["id"]
+                same_field = isinstance(idv, ast.Subscript) and prog.try_fold(idv.slice, ser.mod, ser) == field_
+                ctx.ob("R18.1", "parents:id-is-the-referenced-field", same_field and not pg.ifs, loc(ser.mod, pc),
+                       f"emitted parent id `{u(idv)}` and the nodes' parent reference are the same field {field_!r} of the same entry, for every entry")
     # nodes and edges are both returned
     rets = [n for n in prog.walk_fn(ser) if isinstance(n, ast.Return) and n.value is not None]
     def _holder_names(comp_nodes):
@@ -169,7 +177,20 @@ def rules(ctx: Ctx) -> None:
     edge_names = _holder_names([c for c, _ in edge_comps])
     # the returned value is computed from the node lists and the edge list (whether or not they were given names first)
     infl = {id(k) for k in prog.influences(ser, rets[0].value)} if len(rets) == 1 else set()
-    ok_ret = len(rets) == 1 and all(id(c) in infl for c, _, _ in node_comps) and all(id(c) in infl for c, _ in edge_comps)
+    def _pure_concat(e: ast.AST, depth: int = 0) -> bool:
+        """the value is the node / edge lists themselves, concatenated - nothing is selected, merged or re-keyed on the way out"""
+        if depth > 6:
+            return False
+        if isinstance(e, ast.BinOp) and isinstance(e.op, ast.Add):
+            return _pure_concat(e.left, depth + 1) and _pure_concat(e.right, depth + 1)
+        if isinstance(e, (ast.ListComp, ast.List)):
+            return True
+        if isinstance(e, ast.Name):
+            srcs_ = [v for v in prog.value_sources(ser, e) if not (isinstance(v, ast.Name) and v.id == e.id)]
+            return bool(srcs_) and all(_pure_concat(v, depth + 1) for v in srcs_)
+        return False
+
+    ok_ret = len(rets) == 1 and all(id(c) in infl for c, _, _ in node_comps) and all(id(c) in infl for c, _ in edge_comps) and _pure_concat(rets[0].value)
     ctx.ob("R18.1", "returns-nodes-and-edges", ok_ret, loc(ser.mod, rets[0]) if rets else ser.loc(), "the export is nodes + edges")
     # nodes list is only extended (never filtered / de-duplicated by dropping)
     for n in prog.walk_fn(ser):
@@ -276,4 +297,4 @@ def rules(ctx: Ctx) -> None:
                f"{role} returns sorted(<holder set>, key=str): each table once (set), in sorted order, by a key that determines Table identity")
 
     # ---- R18.5 the export is computed from this runner's graph on every call (= R11.3: accessors are pure, nothing memoised) ---------
-    common.import_rules(ctx, "C11", {"R11.3": "R18.5"})
+    common.import_rules(ctx, "C11", {"R11.3": "R18.5", "R11.2": "R18.6"})  # R18.6: accessors evaluate first and hand out fresh values (= R11.2)
